@@ -247,9 +247,12 @@ func c12Sequence(cr catRoute, l *core.Local) (first string) {
 						pairs = append(pairs, b, v)
 					}
 				}
-				if wo != "" {
+				if wo != "" && (k+pass)%3 == 0 {
+					pairs = append([]string{"withOptional", wo}, pairs...) // the reserved pair in front of the values
+				} else if wo != "" {
 					pairs = append(pairs, "withOptional", wo)
 				}
+				given := append([]string{}, pairs...)
 				l.Evals++
 				l.Transitions++
 				l.Traces++
@@ -273,8 +276,11 @@ func c12Sequence(cr catRoute, l *core.Local) (first string) {
 					got = f.URLPath("r", pairs...)
 					return nil
 				}()
+				if pan == nil && got == want && strings.Join(pairs, "\x00") != strings.Join(given, "\x00") {
+					pan = fmt.Sprintf("the build rewrote the caller's slice of pairs: given %q, afterwards %q", given, pairs)
+				}
 				if pan != nil || got != want {
-					bad := fmt.Sprintf("after earlier builds on the same router, URLPath(%q) = %q (panic %v), one-pass substitution gives %q [route %q]", pairs, got, pan, want, cr.Text)
+					bad := fmt.Sprintf("after earlier builds on the same router, URLPath(%q) = %q (panic %v), one-pass substitution gives %q [route %q]", given, got, pan, want, cr.Text)
 					if first == "" {
 						first = bad
 					}
